@@ -137,8 +137,8 @@ RULE_PROP = {"cow": "C17", "ht-after-meta": "C17", "prune-after-meta": "C17", "w
 PLANS = {
     "C03": dict(quick=dict(behs=8, depth=20, mode="crash", budget=2, nested=1, stride=1, fs=[1, 3, 12, 25], mc_crashes=2, mutants=False, decode=True, max_ops=4, growth=2),
                 thorough=dict(behs=150, depth=28, mode="crash", budget=6, nested=4, stride=1, fs=[1, 3, 25], mc_crashes=3, mutants=True, decode=True)),
-    "C04": dict(quick=dict(behs=8, depth=20, mode="both", budget=6, nested=2, stride=1, fs=[1, 3], mc_crashes=2, mutants=True, max_ops=4),
-                thorough=dict(behs=120, depth=28, mode="both", budget=24, nested=4, stride=1, fs=[1, 3, 25], mc_crashes=3, mutants=True)),
+    "C04": dict(quick=dict(behs=8, depth=20, mode="both", budget=6, nested=2, stride=1, fs=[1, 3], mc_crashes=2, mutants=True, max_ops=4, decode=True),
+                thorough=dict(behs=120, depth=28, mode="both", budget=24, nested=4, stride=1, fs=[1, 3, 25], mc_crashes=3, mutants=True, decode=True)),
     "C17": dict(quick=dict(behs=60, depth=24, mode="none", budget=0, nested=0, stride=1, fs=[1, 3, 25, 60], mc_crashes=1, mutants=True),
                 thorough=dict(behs=600, depth=30, mode="none", budget=0, nested=0, stride=1, fs=[1, 3, 25, 60, 400], mc_crashes=2, mutants=True)),
     # C16's crash leg: recovered images of histories whose merkle pages cross the elision threshold while parts of
@@ -153,8 +153,9 @@ PLANS = {
                            decode=True, max_ops=4, growth=3, embs=["top", "scatter", "deep(12)"]),
                 thorough=dict(behs=80, depth=26, mode="crash", budget=2, nested=1, stride=1, fs=[1, 3, 25, 60], mc_crashes=2,
                               mutants=False, decode=True, growth=40, embs=["top", "scatter", "deep(12)", "spread(6)"])),
-    "C14": dict(quick=dict(behs=6, depth=14, faults=90, fs=[1, 3], mc_crashes=1, mutants=False),
-                thorough=dict(behs=80, depth=24, faults=8000, fs=[1, 3, 25], mc_crashes=2, mutants=False)),
+    "C14": dict(quick=dict(behs=6, depth=14, faults=90, fs=[1, 3], mc_crashes=1, mutants=False, vts=["tiny", "edge", "ovf", "mixed", "big", "big", "huge"]),
+                thorough=dict(behs=80, depth=24, faults=8000, fs=[1, 3, 25], mc_crashes=2, mutants=False,
+                              vts=["tiny", "edge", "ovf", "mixed", "big", "big", "huge"])),
 }
 
 ASSUME = [
@@ -184,7 +185,7 @@ def gen_scripts(pid, plan, seed, rng, with_overlay=True):
                          segment_size=rng.choice([0, 4096, 8192]))
             conc = dict(keys=sorted(consts["Keys"]), vals=sorted(consts["Vals"]),
                         emb=rng.choice(plan.get("embs") or (api.EMBEDDINGS_QUICK + ["deep(6)", "deep(12)", "deep(12)", "deep(18)"])),
-                        f=rng.choice(plan["fs"]), vtable=api.VTABLES[rng.choice(["tiny", "edge", "ovf", "mixed"])],
+                        f=rng.choice(plan["fs"]), vtable=api.VTABLES[rng.choice(plan.get("vts") or ["tiny", "edge", "ovf", "mixed"])],
                         seed=rng.randrange(1 << 30), probes=2)
             run += 1
             sc = api.make_script(run, b, store, conc)
@@ -265,6 +266,7 @@ def run_plan(pid, tier, seed, extra_cov=None, t0=None):
             sc["decode"] = True     # every recovered image is also decoded by the independent decoder (C16)
     C.log("[%s] %d scripts, recording I/O of every sync operation (mode=%s)" % (pid, len(scripts), plan["mode"]))
     runs, events, hangs = run_crash(scripts, pid)
+    C.panic_violations(pid, runs, {sc["run"]: sc for sc in scripts}, violations)
     for h in hangs:
         p = C.write_replay(pid, "hang-%d" % len(violations), dict(kind="hang", what=h))
         violations.append(dict(prop=pid, replay=p, what="call did not return: " + h[:200]))
@@ -273,6 +275,12 @@ def run_plan(pid, tier, seed, extra_cov=None, t0=None):
     n_ops = sum(1 for e in events if e["ev"] == "op")
     C.log("[%s] %d image observations, %d recorded operations, %d I/O events" % (pid, n_images, n_ops, len(events)))
     # 3. Image records judged by ApiTrace
+    if pid == "C04":
+        # process-crash images are C03's business (and a run is only judged up to its first rejected record): C04
+        # judges the power-loss images, including those taken while a crashed process is being recovered
+        runs = {r: [x for x in rs if not (x.get("ev") == "Image" and x.get("kind") == "crash")] for r, rs in runs.items()}
+        n_images = sum(1 for rs in runs.values() for r in rs if r.get("ev") == "Image")
+        C.log("[%s] %d power-loss image observations are judged" % (pid, n_images))
     accepted_total, rejections = 0, []
     for ckey, consts in consts_by_class.items():
         ids = sorted(r for r in runs if classes.get(r) == ckey)
@@ -330,6 +338,7 @@ def run_faults(pid, tier, seed, plan, rng, t0, states, trans, mcs, violations):
         sc.update(crash_mode="none", budget=0, nested=0, stride=1)
     # pass 1: learn how many failable operations each sync op performs
     runs1, events, hangs = run_crash(scripts, pid + "p1")
+    C.panic_violations(pid, runs1, {sc["run"]: sc for sc in scripts}, violations)
     ops = [(e["run"], e["i"], e["failable"]) for e in events if e["ev"] == "op" and e.get("op", {}).get("a") != "Reopen" or
            (e["ev"] == "op" and e.get("failable", 0) > 0 and e.get("i") is not None and e.get("op", {}).get("a") == "Reopen" and False)]
     script_by_run = {sc["run"]: sc for sc in scripts}
@@ -371,6 +380,7 @@ def run_faults(pid, tier, seed, plan, rng, t0, states, trans, mcs, violations):
     C.log("[%s] %d sync operations with %d failable I/O operations; injecting %d faults (+%d bucket-exhaustion runs)" %
           (pid, len(ops), sum(n for _, _, n in ops), len(fscripts) - nex, nex))
     runs, _, hangs2 = run_crash(fscripts, pid + "p2")
+    C.panic_violations(pid, runs, {sc["run"]: sc for sc in fscripts}, violations)
     for h in hangs + hangs2:
         fid = findings.match_hang(pid, h)
         if fid:
